@@ -219,7 +219,13 @@ let coq_out : out_channel option =
   | _ -> None
 let goal_counter = ref 0
 let pp_n n = Printf.sprintf "%s%%N" (ZA.to_string (zar_of_n n))
-let pp_z z = let s = ZA.to_string (zar_of_z z) in Printf.sprintf "(%s)%%Z" s
+(* big integers are written in Horner form over 2^64 (Coq parses long decimal literals slowly) *)
+let pp_z z =
+  let v = zar_of_z z in
+  let base = ZA.shift_left ZA.one 64 in
+  let rec horner a = if ZA.lt a base then ZA.to_string a else
+      Printf.sprintf "(%s + 18446744073709551616 * %s)" (ZA.to_string (ZA.rem a base)) (horner (ZA.div a base)) in
+  if ZA.sign v >= 0 then Printf.sprintf "(%s)%%Z" (horner v) else Printf.sprintf "(- %s)%%Z" (horner (ZA.neg v))
 let pp_nat k = Printf.sprintf "(N.to_nat %s)" (pp_n (n_of_int (int_of_nat k)))
 let pp_bool b = if b then "true" else "false"
 let pp_list f l = "[" ^ String.concat "; " (List.map f l) ^ "]"
